@@ -54,6 +54,11 @@ func encodeXterm(key vaxis.Key, deckpam bool, decckm bool) string {
 		return fmt.Sprintf("\x1B[%d;%d%c", val.number, int(xtermMods)+1, val.final)
 	}
 
+	if key.Keycode == vaxis.KeyTab && xtermMods == vaxis.ModShift {
+		// back tab (CBT)
+		return "\x1B[Z"
+	}
+
 	if key.Text != "" && key.Modifiers&vaxis.ModCtrl == 0 && key.Modifiers&vaxis.ModAlt == 0 {
 		return key.Text
 	}
